@@ -41,6 +41,9 @@ type TargetSpec struct {
 	// Proc: after its chunks the body runs a real process (this binary in -chatter mode) through os.exec or
 	// sh.exec; the process writes whole lines alternately to its standard output and standard error, in pieces
 	Proc *ProcSpec `json:"proc,omitempty"`
+	// Prints: lines printed with print() before anything else (used by the command-line stream, whose projects
+	// cannot call the harness builtins)
+	Prints []string `json:"prints,omitempty"`
 }
 
 type ProcSpec struct {
@@ -49,6 +52,7 @@ type ProcSpec struct {
 	Lines   int    `json:"lines"`
 	MaxLen  int    `json:"maxlen"`
 	FinalNL bool   `json:"finalnl"`
+	Exit    int    `json:"exit,omitempty"` // exit status of the process, after it has written everything
 }
 
 func (p *ProcSpec) arg() string {
@@ -56,7 +60,7 @@ func (p *ProcSpec) arg() string {
 	if p.FinalNL {
 		nl = 1
 	}
-	return fmt.Sprintf("%d,%d,%d,%d", p.Seed, p.Lines, p.MaxLen, nl)
+	return fmt.Sprintf("%d,%d,%d,%d,%d", p.Seed, p.Lines, p.MaxLen, nl, p.Exit)
 }
 
 type chatterLine struct {
@@ -99,8 +103,13 @@ func chatterLines(p *ProcSpec) []chatterLine {
 func chatter(arg string) {
 	var p ProcSpec
 	var nl int
-	fmt.Sscanf(arg, "%d,%d,%d,%d", &p.Seed, &p.Lines, &p.MaxLen, &nl)
+	fmt.Sscanf(arg, "%d,%d,%d,%d,%d", &p.Seed, &p.Lines, &p.MaxLen, &nl, &p.Exit)
 	p.FinalNL = nl == 1
+	defer func() {
+		if p.Exit != 0 {
+			os.Exit(p.Exit) // everything has been written: a failing command's output is output all the same
+		}
+	}()
 	r := &rng{s: p.Seed ^ 0x5bd1e995}
 	for _, l := range chatterLines(&p) {
 		f := os.Stdout
@@ -291,6 +300,8 @@ func attrString(v starlark.Value, name string) (string, bool) {
 
 // ---- generating the tree
 
+var cliMode bool // BUILD files for the real command line: no harness builtins
+
 func buildFile(ts []TargetSpec) string {
 	var b strings.Builder
 	for _, t := range ts {
@@ -317,7 +328,14 @@ func buildFile(ts []TargetSpec) string {
 		for _, c := range t.Chunks {
 			q = append(q, fmt.Sprintf("%q", c))
 		}
-		fmt.Fprintf(&b, "    emit(%s)\n", strings.Join(q, ", "))
+		for _, pl := range t.Prints {
+			fmt.Fprintf(&b, "    print(%q)\n", pl)
+		}
+		if !cliMode {
+			fmt.Fprintf(&b, "    emit(%s)\n", strings.Join(q, ", "))
+		} else if len(t.Prints) == 0 && t.Proc == nil && !t.Fail {
+			b.WriteString("    pass\n")
+		}
 		if t.Proc != nil {
 			if t.Proc.Via == "sh" {
 				fmt.Fprintf(&b, "    sh.exec(%q)\n", selfExe+" -chatter "+t.Proc.arg())
@@ -1065,7 +1083,11 @@ func procStream(r *rng, tier string) {
 			if maxLen >= 70000 {
 				lines = 2 + r.below(6)
 			}
-			t.Proc = &ProcSpec{Via: []string{"os", "sh"}[r.below(2)], Seed: r.next() % 1000000, Lines: lines, MaxLen: maxLen, FinalNL: r.chance(60)}
+			// every combination of builtin and exit status comes round: os/sh alternate, every other pair fails
+			t.Proc = &ProcSpec{Via: []string{"os", "sh"}[(i+j)%2], Seed: r.next() % 1000000, Lines: lines, MaxLen: maxLen, FinalNL: r.chance(60)}
+			if (i+j)%4 >= 2 {
+				t.Proc.Exit = 1 + r.below(3) // the command fails after writing: its output must be delivered all the same
+			}
 			if r.chance(30) {
 				t.Chunks = []string{hx("pre"), hx("fix\n")}
 			}
@@ -1173,6 +1195,133 @@ func evStreams(r *rng, tier string) {
 			runInChild(c)
 		} else {
 			runCase(c)
+		}
+	}
+}
+
+// ---------------------------------------------------------------- trees for the command-line consumers (cmd/dawn)
+
+// CLIExpect: what the events file of `dawn build --json <file> <root>` on a fresh tree must show for one label
+type CLIExpect struct {
+	Seq   string   `json:"seq"`
+	Lines []string `json:"lines"`
+}
+
+type CLICase struct {
+	Case   *Case                `json:"case"`
+	Root   string               `json:"root"`
+	Fails  bool                 `json:"fails"`
+	Expect map[string]CLIExpect `json:"expect"` // every target defined in the tree (visited or not)
+}
+
+func genCLICase(r *rng) *Case {
+	c := &Case{Files: map[string]string{}}
+	n := 1 + r.below(6)
+	two := r.chance(40)
+	for i := 0; i < n; i++ {
+		t := TargetSpec{Name: fmt.Sprintf("t%d", i)}
+		if two && r.chance(40) {
+			t.Pkg = "p1"
+		}
+		for j := 0; j < i; j++ {
+			if len(t.Deps) < 3 && r.chance(45) {
+				t.Deps = append(t.Deps, c.Targets[j].label())
+			}
+		}
+		for k := r.below(3); k > 0; k-- {
+			t.Prints = append(t.Prints, fmt.Sprintf("%s says %d", t.Name, k))
+		}
+		if r.chance(45) {
+			maxLen := []int{30, 300, 5000, 70000}[r.below(4)]
+			t.Proc = &ProcSpec{Via: []string{"os", "sh"}[r.below(2)], Seed: r.next() % 1000000, Lines: 1 + r.below(12), MaxLen: maxLen, FinalNL: r.chance(60)}
+			if r.chance(15) {
+				t.Proc.Exit = 1 + r.below(3)
+			}
+		}
+		t.Fail = r.chance(10)
+		c.Targets = append(c.Targets, t)
+	}
+	if r.chance(15) {
+		t := &c.Targets[r.below(n)]
+		t.Deps = append([]string{nearMiss(r, c)}, t.Deps...)
+	}
+	return c
+}
+
+func predictCLI(c *Case) *CLICase {
+	out := &CLICase{Case: c, Root: c.Targets[len(c.Targets)-1].label(), Expect: map[string]CLIExpect{}}
+	idx := map[string]int{}
+	for i := range c.Targets {
+		idx[c.Targets[i].label()] = i
+	}
+	visited := map[int]bool{}
+	var visit func(i int)
+	visit = func(i int) {
+		if visited[i] {
+			return
+		}
+		visited[i] = true
+		for _, d := range c.Targets[i].Deps {
+			if j, ok := idx[d]; ok {
+				visit(j)
+			}
+		}
+	}
+	visit(len(c.Targets) - 1)
+	failed := map[int]bool{}
+	for i := range c.Targets { // dependencies have smaller indices
+		t := &c.Targets[i]
+		if !visited[i] {
+			out.Expect[t.label()] = CLIExpect{}
+			continue
+		}
+		e := CLIExpect{}
+		blocked := false
+		for _, d := range t.Deps {
+			j, ok := idx[d]
+			if !ok {
+				e.Seq, blocked = "F", true
+				break
+			}
+			if failed[j] {
+				e.Seq, blocked = "", true
+				break
+			}
+		}
+		if blocked {
+			failed[i] = true
+		} else {
+			e.Lines = append(append([]string{}, t.Prints...), refSplit(t.procText(), true)...)
+			if (t.Proc != nil && t.Proc.Exit != 0) || t.Fail {
+				e.Seq, failed[i] = "EF", true
+			} else {
+				e.Seq = "ES"
+			}
+		}
+		out.Expect[t.label()] = e
+	}
+	out.Fails = failed[len(c.Targets)-1]
+	return out
+}
+
+// genTrees writes n fresh trees with their expectations under dir (one directory each)
+func genTrees(dir string, r *rng, n int, one *Case) {
+	cliMode = true
+	for i := 0; i < n; i++ {
+		c := one
+		if c == nil {
+			c = genCLICase(r)
+		}
+		d := filepath.Join(dir, fmt.Sprintf("c%04d", i))
+		if err := os.MkdirAll(d, 0o755); err != nil {
+			panic(err)
+		}
+		if err := writeTree(d, c); err != nil {
+			panic(err)
+		}
+		b, _ := json.Marshal(predictCLI(c))
+		if err := os.WriteFile(filepath.Join(d, "verif-expect.json"), b, 0o644); err != nil {
+			panic(err)
 		}
 	}
 }
